@@ -218,7 +218,10 @@ from pyvc.engine import Builtin  # noqa: E402
 for _t, _name in CLASSES.items():
     for (_m, _d) in shapes_for(_t):
         _sh = 'md=%s,data=%s' % (_m, _d)
-        _credit = ['C06'] if _name in ('RequestNFrame', 'RequestStreamFrame', 'RequestChannelFrame') else []      # frames that carry credit
+        # the wire form of a frame is part of every property that is stated in terms of what that frame carries
+        _credit = {'RequestNFrame': ['C06'], 'RequestStreamFrame': ['C06'], 'RequestChannelFrame': ['C06'],      # credit
+                   'SetupFrame': ['C16'], 'ResumeFrame': ['C16'], 'LeaseFrame': ['C14'], 'KeepAliveFrame': ['C15'],
+                   'ErrorFrame': ['C12'], 'CancelFrame': ['C09']}.get(_name, [])
         both_backends('c02.encode.%s[%s]' % (_name, _sh), ['C02', 'C01'] + _credit, functions=CODEC_FUNCS, replay='c02_roundtrip',
                       assumptions=ASSUME)(_encode(_t, _m, _d))
         both_backends('c02.decode.%s[%s]' % (_name, _sh), ['C02', 'C01', 'C04'] + _credit, functions=CODEC_FUNCS,
